@@ -10,11 +10,19 @@
        a (url, method) pair repeats (C19_loop_iff) and then the repeated pair is the last hop (C19_loop_last),
        TooManyHops only when the limit is exhausted (C19_too_many_hops_exact), and the hops form a path of the
        one-hop function (C19_hops_are_a_path).
-   PARTIAL: that the response reported for an example is the one of the live pipeline is decided by the
-   correspondence run (independent replay in proxy order on a rebuilt router), not by a theorem; unit-trace
-   bookkeeping is not modelled. *)
+   (3) The response block.  explain and impact compute the response of an example with the same block of calls
+       (RIO.Pipeline.analysis_response over the action model of RIO.ActionModel; the block's shape and the skeleton
+       document are re-extracted from src/api/explain_request.rs, src/api/impact.rs and src/action/mod.rs on every run:
+       RIOGen.ExtAnalysis).  C19_analysis_eq_live: for every action, example code and document it is the response of the
+       live pipeline in proxy order (request phase first; when it yields a status the backend is never asked; otherwise
+       the backend answers with the example's code, 200 when it names none); C19_request_phase_wins; C19_analysis_status;
+       C19_analysis_order_independent: it depends only on the SET of matched rules.
+   PARTIAL: unit-trace bookkeeping is not modelled; that the router hands the analysis the rules it would hand the
+   proxy is C01/C02/C17; the correspondence run compares every response explain and impact report with this model
+   evaluated on the rules the router matched, and with an independent replay in proxy order on a rebuilt router. *)
 Require Import RIO.Base RIO.Prefix RIO.Route RIO.Tree RIO.TreeProofs RIO.TreeInst RIO.Matchers RIO.MatcherSpec RIO.PathProofs RIO.RouterSpec RIO.RouterHist RIO.RouterProofs.
 Require Import RIO.Analyses RIO.AnalysesProofs.
+Require Import RIO.Headers RIO.BodyText RIO.ActionModel RIO.Pipeline RIO.PipelineProofs.
 Close Scope N_scope.
 
 Theorem C19_project_eq_standalone : forall lower eng valid ic_host ic_path always,
@@ -80,6 +88,39 @@ Example C19_example_chain :
    /\ compute N N.eqb step (fun _ => false) 0 0 = ([(0, 0)], None))%N.
 Proof. vm_compute. repeat split. Qed.
 
+(* ---- the response block of explain / impact = the live pipeline ---- *)
+Theorem C19_analysis_eq_live : forall lower table (a : action) (example_code : option N) (skeleton : str),
+  analysis_response lower table a example_code skeleton = live_response lower table a (example_backend example_code) skeleton.
+Proof. exact analysis_eq_live. Qed.
+
+Theorem C19_request_phase_wins : forall lower table (a : action) (b b' : N) (skeleton : str),
+  fst (get_status_code a 0) <> 0%N -> live_response lower table a b skeleton = live_response lower table a b' skeleton.
+Proof. exact live_request_phase_wins. Qed.
+
+Theorem C19_analysis_status : forall lower table (a : action) (example_code : option N) (skeleton : str),
+  rs_status (analysis_response lower table a example_code skeleton)
+  = (let st0 := fst (get_status_code a 0) in
+     if N.eqb st0 0 then fst (get_status_code (snd (get_status_code a 0)) (example_backend example_code)) else st0).
+Proof. exact analysis_status. Qed.
+
+Theorem C19_analysis_order_independent : forall lower table (l1 l2 : list rule) skipped ov example_code skeleton,
+  Permutation l1 l2 -> NoDup (map r_id l1) ->
+  analysis_of_rules lower table l1 skipped ov example_code skeleton = analysis_of_rules lower table l2 skipped ov example_code skeleton.
+Proof. exact analysis_of_rules_permutation. Qed.
+
+(* non-vacuity: an unconditional 301 answers at request time whatever the example's backend code; a rule conditioned
+   on 404 answers only when the backend says 404 *)
+Example C19_pipeline_example :
+  let r301 := {| r_id := [97]%N; r_rank := 1; r_status := Some 301%N; r_target := Some [47;116]%N; r_codes := None; r_excl := None; r_hf := []; r_bf := [];
+                 r_log := None; r_reset := None; r_stop := None; r_sampling := None |} in
+  let r404 := {| r_id := [98]%N; r_rank := 1; r_status := Some 302%N; r_target := Some [47;117]%N; r_codes := Some [404%N]; r_excl := None; r_hf := []; r_bf := [];
+                 r_log := None; r_reset := None; r_stop := None; r_sampling := None |} in
+  let resp := fun rules code => analysis_of_rules (fun s => s) [] rules None None code [120]%N in
+  (rs_status (resp [r301] (Some 404%N)), rs_backend (resp [r301] (Some 404%N))) = (301%N, 301%N)
+  /\ (rs_status (resp [r404] (Some 404%N)), rs_backend (resp [r404] (Some 404%N))) = (302%N, 404%N)
+  /\ (rs_status (resp [r404] None), rs_backend (resp [r404] None)) = (0%N, 200%N).
+Proof. vm_compute. repeat split. Qed.
+
 Print Assumptions C19_project_eq_standalone.
 Print Assumptions C19_change_set.
 Print Assumptions C19_loop_bound.
@@ -87,3 +128,7 @@ Print Assumptions C19_loop_iff.
 Print Assumptions C19_loop_last.
 Print Assumptions C19_too_many_hops_exact.
 Print Assumptions C19_hops_are_a_path.
+Print Assumptions C19_analysis_eq_live.
+Print Assumptions C19_request_phase_wins.
+Print Assumptions C19_analysis_status.
+Print Assumptions C19_analysis_order_independent.
